@@ -295,6 +295,11 @@ inductive Reply (P : Type) where
 /-- how an index is built: `from_batch_with_leaf_size(leaf)` or `from_batch` -/
 inductive Form | leaf (leafSize : Nat) | default
 
+/-- the leaf size a build form passes on -/
+def Form.leafSize : Form → Nat
+  | .leaf l => l
+  | .default => defaultLeaf
+
 def buildForm (m : Metric P α) (mean : List P → P)
     (split : List (Pt P) → Option (List (Pt P) × P × List (Pt P))) (kind : Kind) (form : Form)
     (ncols : Nat) (rows : List P) : Except BuildErr (Index P α) :=
